@@ -56,6 +56,7 @@ from .exceptions import (
     CaptionReadTimingError
 )
 from .geometry import Layout, Alignment, Padding, Size
+from .utils import unwrap_source_lines
 
 # change cssutils default logging
 log.setLevel(FATAL)
@@ -256,7 +257,7 @@ class SAMIReader(BaseReader):
             # should contain a plain unicode string.
             # strips indentation whitespace only
             pattern = re.compile("^(?:[\n\r]+\\s*)?(.+)")
-            result = pattern.search(tag)
+            result = pattern.search(unwrap_source_lines(tag))
             if not result:
                 return
             tag_text = result.groups()[0]
